@@ -3,9 +3,9 @@ NEXT Next
 CONSTANTS
   MAXSIZE = 4
   MaxSkip = 6
-  Hashes = {0, 1, 2, 3, 4, 6, 8, 12, 16, 24, 32}
+  Hashes = {0, 1, 2, 3, 4, 6, 8, 16}
   NSk = 2
-  MaxIns = 7
+  MaxIns = 6
   MaxMrg = 2
   FixMerge = TRUE
   FixMergeRead = TRUE
